@@ -99,21 +99,32 @@ def step_counts(rep):
     from .. import engine_rec
     r = engine_rec.Runner()
     bad = 0
-    for dt, tmax in [(0.1, 0.3), (0.1, 1.0), (0.25, 1.0), (0.3, 1.0), (1e-3, 0.0105), (0.7, 0.1), (0.5, 0.0), (0.1, 0.7)]:
+    cases = [(dt, tmax, None) for dt, tmax in [(0.1, 0.3), (0.1, 1.0), (0.25, 1.0), (0.3, 1.0), (1e-3, 0.0105), (0.7, 0.1), (0.5, 0.0), (0.1, 0.7)]]
+    # the same with the horizon stated in another unit than the script's: explicitly, or through the requested times
+    cases += [(0.1, 0.3, "tmax-ms"), (0.25, 1.0, "ts-ms"), (0.5, 3.0, "tmax-min"), (0.1, 0.7, "ts-min-script-ms")]
+    for dt, tmax, how in cases:
         for kind, space in (("euler", "grid"), ("tauleap", "grid"), ("euler", "graph"), ("tauleap", "graph")):
             c = dict(system="birth", space=space, dt=dt, ts=[tmax], policy="no_sampling", seed=5)
+            if how == "tmax-ms":
+                c.update(ts=[0.0], tmax="%r ms" % (tmax * 1e3))
+            elif how == "ts-ms":
+                c.update(ts=[tmax * 1e3], ts_unit="ms")
+            elif how == "tmax-min":
+                c.update(ts=[0.0], tmax="%r min" % (tmax / 60))
+            elif how == "ts-min-script-ms":
+                c.update(ts=[tmax / 60], ts_unit="min", dt=dt * 1e3, units={"time": "ms"})
             rf = r.ref(c, kind)
             if isinstance(rf, tuple):
                 rep.violation("step-count", "engine:ref-" + rf[0], {"cfg": c, "kind": kind})
                 continue
             n = len(rf.T) - 1
             want = math.ceil(tmax / dt)
-            rep.case(["steps", dt, tmax, kind])
+            rep.case(["steps", dt, tmax, kind, space, how])
             if not rf.ended or abs(n - want) > 1:
                 bad += 1
                 rep.violation("step-count", "engine:fixed-step-count",
                               {"dt": dt, "tmax": tmax, "kind": kind, "steps": n, "expected": want, "ended": rf.ended})
-    rep.extra["step_count_cases"] = 32
+    rep.extra["step_count_cases"] = 4 * len(cases)
 
 
 def run(tier, selftest=False, only=None):
